@@ -1458,10 +1458,18 @@ func c15Prom(r *h.Result, rng *h.Rng, n int) error {
 		// vector with a label, matrix of a constant
 		lv := strings.ReplaceAll(string(goSanitize(c15Bytes(rng, 5))), "$", "")
 		q := fmt.Sprintf(`label_replace(vector(%s), "foo", %s, "", "")`, lit(v), strconv.Quote(lv))
+		// evaluation time: whole seconds, or RFC 3339 with a millisecond part (1..99 ms included: a timestamp writer that
+		// does not pad the fraction shows only there — seeded C15-7)
+		tsMs, tparam := sec*1000, strconv.FormatInt(sec, 10)
+		if i%3 == 1 && sec > 1000 {
+			tsMs = sec*1000 + int64(h.Pick(rng, []int{7, 50, 99, 100, 250, 999}))
+			tparam = url.QueryEscape(time.UnixMilli(tsMs).UTC().Format("2006-01-02T15:04:05.000Z07:00"))
+			r.Count("prom:vector-fractional-time")
+		}
 		w = httptest.NewRecorder()
-		pc.QueryInstant(w, httptest.NewRequest("GET", fmt.Sprintf("/api/v1/query?time=%d&query=%s", sec, url.QueryEscape(q)), nil))
+		pc.QueryInstant(w, httptest.NewRequest("GET", fmt.Sprintf("/api/v1/query?time=%s&query=%s", tparam, url.QueryEscape(q)), nil))
 		body = w.Body.Bytes()
-		rep = c15Replay{Stream: "prom", Kind: "promvector", Note: q, Body: h.Hex(body)}
+		rep = c15Replay{Stream: "prom", Kind: "promvector", Note: q + " time=" + tparam, Body: h.Hex(body)}
 		r.Case("promvector:"+q, true)
 		r.Count("prom:vector")
 		doc, ok = jdoc(body)
@@ -1476,7 +1484,7 @@ func c15Prom(r *h.Result, rng *h.Rng, n int) error {
 				if lv == "" {
 					want = nil
 				}
-				good = c15LabelsMatch(o.get("metric"), want) && len(o.get("value").arr) == 2 && c15NumIs(o.get("value").arr[0].s, sec, 1) &&
+				good = c15LabelsMatch(o.get("metric"), want) && len(o.get("value").arr) == 2 && c15NumIs(o.get("value").arr[0].s, tsMs, 1000) &&
 					c15ValMatches(o.get("value").arr[1].s, v)
 			}
 			if !good {
@@ -1484,7 +1492,13 @@ func c15Prom(r *h.Result, rng *h.Rng, n int) error {
 			}
 		}
 		w = httptest.NewRecorder()
-		pc.QueryRange(w, httptest.NewRequest("GET", fmt.Sprintf("/api/v1/query_range?start=%d&end=%d&step=15&query=%s", sec, sec+45, url.QueryEscape(lit(v))), nil))
+		stepMs, endOff := int64(15000), "45"
+		if i%3 == 2 {
+			stepMs, endOff = int64(h.Pick(rng, []int{50, 7, 99, 250})), "1"
+			r.Count("prom:matrix-subsecond-step")
+		}
+		pc.QueryRange(w, httptest.NewRequest("GET", fmt.Sprintf("/api/v1/query_range?start=%d&end=%d&step=%s&query=%s", sec, sec+map[string]int64{"45": 45, "1": 1}[endOff],
+			strconv.FormatFloat(float64(stepMs)/1000, 'f', -1, 64), url.QueryEscape(lit(v))), nil))
 		body = w.Body.Bytes()
 		rep = c15Replay{Stream: "prom", Kind: "prommatrix", Note: lit(v), Body: h.Hex(body)}
 		r.Case("prommatrix:"+lit(v)+":"+strconv.FormatInt(sec, 10), true)
@@ -1496,8 +1510,19 @@ func c15Prom(r *h.Result, rng *h.Rng, n int) error {
 			res := doc.get("data").get("result")
 			good := res != nil && res.kind == '[' && len(res.arr) == 1 && c15KeysAre(res.arr[0], "metric", "values")
 			if good {
-				for _, p := range res.arr[0].get("values").arr {
+				var first *big.Rat
+				for k, p := range res.arr[0].get("values").arr {
 					if len(p.arr) != 2 || p.arr[0].kind != '#' || !c15ValMatches(p.arr[1].s, v) {
+						good = false
+						continue
+					}
+					// the points of a constant are exactly one step apart: the k-th timestamp is the first + k·step
+					t, ok := new(big.Rat).SetString(string(p.arr[0].s))
+					if !ok {
+						good = false
+					} else if first == nil {
+						first = t
+					} else if new(big.Rat).Sub(t, first).Cmp(big.NewRat(int64(k)*stepMs, 1000)) != 0 {
 						good = false
 					}
 				}
